@@ -1401,10 +1401,10 @@ def e2e_run(ctx: Ctx, spec, W2, perm=None):
         def take(rank):
             if perm:
                 app = {key: as_stateful(StateDict, realize(tree)) for key, tree in trees[perm[rank]].items()}
-                handles[rank] = Snapshot.async_take(path=root, app_state=app, replicated=[_glob_escape(p) for p in rep_paths], pg=group).wait()
+                handles[rank] = Snapshot.async_take(path=root, app_state=app, replicated=_replication_globs(rep_paths), pg=group).wait()
                 return True
             app = {key: as_stateful(StateDict, realize(tree)) for key, tree in trees[rank].items()}
-            Snapshot.take(path=root, app_state=app, replicated=[_glob_escape(p) for p in rep_paths])
+            Snapshot.take(path=root, app_state=app, replicated=_replication_globs(rep_paths))
             return True
         w = World(W)
         _, errs = w.run(take)
@@ -1510,6 +1510,17 @@ def as_stateful(cls, data):
 def _glob_escape(p: str) -> str:
     """`replicated` takes fnmatch patterns: escape the glob metacharacters of a literal path"""
     return "".join("[" + c + "]" if c in "*?[" else c for c in p)
+
+
+def _replication_globs(rep_paths):
+    """the application's `replicated` argument: one literal glob per replicated path and, for every second path, a SECOND glob
+    that matches exactly the same path (its last character written as a one-character class): overlapping globs are legal,
+    a path matched by two of them is replicated like any other"""
+    globs = [_glob_escape(p) for p in rep_paths]
+    for k, p in enumerate(rep_paths):
+        if k % 2 == 0 and p and p[-1] not in "*?[]!^-\\":
+            globs.append(_glob_escape(p[:-1]) + "[" + p[-1] + "]")
+    return globs
 
 
 def sentinel_tensors(o, path):
